@@ -68,6 +68,11 @@ theorem waits_iff_no_window (f : Int) : Gen.flowWaits f = true ↔ f ≤ 0 := by
 
 theorem send_takes_min : Gen.sendTakesMinLenFlow = true := by decide
 
+/-- **flow_wait_notices_reset** - Tie A (regenerated): an upload that waits for credit names its stream to the reader, and the reader -
+with the read lock held, before it touches the network - raises RemoteProtocolError if a RST_STREAM has already been filed for that
+stream (by whichever request was reading when it arrived): the wait ends as soon as credit can no longer come (finding F-C13-c). -/
+theorem flow_wait_notices_reset : Gen.flowWaitSeesResets = true := by decide
+
 /-! ## receiving: credit -/
 
 /-- what the peer may still send + what is in httpcore's hands + what is acknowledged but not yet returned
